@@ -8,7 +8,7 @@ import nauyaca.protocol.request  # noqa: F401
 import nauyaca.server.middleware as mw
 from nauyaca.server.middleware import RateLimitConfig, RateLimiter, TokenBucket
 
-from vf import Ob, V, pick
+from vf import Ob, V, internal, pick
 from vf.py2smt import Unsupported, find_comprehension_filter, has_await, merge, run_function, Interp
 from vf.smt import decide, frac
 from vf.stubs import drive as _drive
@@ -261,7 +261,7 @@ def replay_cleanup(C, r, tok, last, t1, t2):
             b = TokenBucket(cap, r)
             b.tokens = min(tok, cap)
             b.last_update = last
-            rl.buckets["203.0.113.9"] = b
+            internal(rl, "buckets")["203.0.113.9"] = b
             clk.now = t1
             b.consume()
             clk.now = t2
@@ -374,7 +374,7 @@ def isolation(a: int, b: int, ta: int, tb: int, ri: int, fresh_b: bool) -> bool:
     rl = RateLimiter(RateLimitConfig(capacity=3, refill_rate=0.5, retry_after=RETRY[ri]))
     ba = TokenBucket(3, 0.5)
     ba.tokens = TOKS[ta]
-    rl.buckets[IPS[a]] = ba
+    internal(rl, "buckets")[IPS[a]] = ba
     if not fresh_b:
         bb = TokenBucket(3, 0.5)
         bb.tokens = TOKS[tb]
